@@ -14,31 +14,57 @@ ID = 'C05'
 READY = True
 LEVEL_TEXT = ('Partial. Coq theorems over R: project is feasible, the nearest feasible point and idempotent for finite/one-sided/infinite/degenerate bounds; '
               'project_onto_tr is in the box for every value brentq may return, unchanged and inside the radius when the projection already is, inside the radius when f(t)<=0; '
-              'an SPG update xNew+alpha(P-xNew) with feasible xNew, P and 0<=alpha<=1 is feasible; the clipped step length min(1,max(0,alpha)) (repo commit d722144, hand kernel clip01 matched syntactically against the source) '
-              'is in [0,1] for every line-search value, so every SPG update is a convex combination in BOTH line-search modes without hypotheses; outer loop for ARBITRARY value/gradient oracles and ARBITRARY step proposals: '
-              'accepted objective values non-increasing (default mode, eta1>=0), flag=True only at a ConvergedAt event at the returned point with |P(y-g)-y|<tol, '
+              'the clip statement alpha = min(1.0, max(0.0, alpha)) if sBs > 0 else 1.0 and project (n = 1, 2, 3) are kernels REGENERATED from the source (no hand kernel clip01 any more): '
+              'the generated clip equals Rmin 1 (Rmax 0 a) / 1 and is in [0,1] for every line-search value, the list model clamp/project equals the generated project kernel; '
+              'C05_every_iterate_feasible: ONE theorem about the COMPLETE solver model (model/M_C05_Full.v: find_generalized_cauchy_point with its forward/back-tracking and trust-region cut-back loops, '
+              'solve_spg_subproblem with qHistory, spectral step, both line searches and the generated clip, the outer loop calling them): for arbitrary length-preserving value/gradient/Hessian-vector oracles, '
+              'EVERY sequence of root-finder answers, every settings record and every feasible start, every point the solver forms (the Cauchy point, every SPG iterate x+z, every trial point, every reported/returned point) is in the box; '
+              'C05_flag_honest_complete_model: the complete model reports success only at a final ConvergedAt event at the returned point with |P(y-g)-y|<tol (no hypotheses); '
+              'outer loop for ARBITRARY value/gradient oracles and ARBITRARY step proposals (older model, kept): accepted objective values non-increasing (default mode, eta1>=0), '
               'flag=False => returned point is the current iterate; convex + exact projected-gradient stationarity => bound-constrained minimiser. '
-              'Not proved (tested by L2 only): feasibility of every iterate as one theorem about the whole solver (find_generalized_cauchy_point and the SPG loop are not modelled; '
-              'solve_spg_subproblem output is an oracle in the model), descent at the converged exit is FALSE (finding F1\'), success on convex problems.')
-TECHNIQUE = 'Coq proof (Reals, lra/nra) on a hand model + regenerated line-search kernels; vm_compute/PrimFloat correspondence with logged oracle values'
+              'Not proved: the binary64 version of feasibility (a bound can be exceeded by an ulp through y = x + z; L2 allows 4 ulp), the trust-region half |z|<=trSize for SPG iterates, '
+              'descent / returns-last restated over the complete model (they are proved for the proposal-oracle model, of which every complete run is an instance by construction of decide, not by a Coq theorem), '
+              'descent at the converged exit is FALSE (finding F1\'), success on convex problems (tested only).')
+TECHNIQUE = 'Coq proof (Reals, lra/nra, induction over the loops) on a hand model + regenerated line-search / clip / project kernels; vm_compute/PrimFloat correspondence of complete event traces with logged root-finder answers'
 GEN = ['TrustRegionSPG']
-TARGETS = ['model/M_C06_Vec.vo', 'model/M_C06_CG.vo', 'model/M_C01_TR.vo', 'model/M_C05_SPG.vo', 'proofs/L_C06_Vec.vo', 'proofs/L_C01.vo', 'proofs/L_C05.vo']
-COQ_FILES = ['base/Num.v', 'model/M_C06_Vec.v', 'model/M_C01_TR.v', 'model/M_C05_SPG.v', 'proofs/L_C06_Vec.v', 'proofs/L_C01.v', 'proofs/L_C05.v', 'props/P_C05.v']
-TRUSTED = ['Coq 8.16.1 kernel + vm_compute (no native_compute)', 'tools/vlib/py2coq.py translator for the two line-search kernels',
-           'hand model model/M_C05_SPG.v tied by the correspondence; solve_spg_subproblem (with find_generalized_cauchy_point) and scipy brentq are ORACLES whose logged outputs are fed to the model',
-           'harness: duck-typed polynomial objectives (shared with C01), recording callback / update_precond, monkey-patched TrustRegionSPG.solve_spg_subproblem and optimize.brentq for logging only',
-           'near-tie rule as C01 (implementation re-run with <= 2 ulp noise on oracle arguments)', 'theorems are over exact reals; binary64 rounding (bounds may be exceeded by an ulp through y = x + s) is covered only by L2 with 4 ulp slack']
+TARGETS = ['model/M_C06_Vec.vo', 'model/M_C06_CG.vo', 'model/M_C01_TR.vo', 'model/M_C05_SPG.vo', 'model/M_C05_Full.vo', 'proofs/L_C06_Vec.vo', 'proofs/L_C01.vo', 'proofs/L_C05.vo',
+           'proofs/L_C05_Full.vo']
+COQ_FILES = ['base/Num.v', 'model/M_C06_Vec.v', 'model/M_C01_TR.v', 'model/M_C05_SPG.v', 'model/M_C05_Full.v', 'proofs/L_C06_Vec.v', 'proofs/L_C01.v', 'proofs/L_C05.v', 'proofs/L_C05_Full.v',
+             'props/P_C05.v']
+TRUSTED = ['Coq 8.16.1 kernel + vm_compute (no native_compute)', 'tools/vlib/py2coq.py translator for the two line-search kernels, the clip statement (extracted from solve_spg_subproblem) and project',
+           'hand models model/M_C05_SPG.v and model/M_C05_Full.v tied by the correspondence; in the complete model only scipy brentq is an ORACLE (its logged answers are fed to the model by call index); '
+           'in the older proposal-oracle model solve_spg_subproblem outputs are fed',
+           'harness: duck-typed polynomial objectives (shared with C01), recording callback / update_precond, monkey-patched TrustRegionSPG.{solve_spg_subproblem, find_generalized_cauchy_point, subproblem_optimality, project} '
+           'and optimize.brentq for logging only',
+           'near-tie rule as C01 (implementation re-run with <= 2 ulp noise on oracle arguments); a check fails if fewer than 60% of the complete-model runs agree event by event',
+           'theorems are over exact reals; binary64 rounding (bounds may be exceeded by an ulp through y = x + s) is covered only by L2 with 4 ulp slack']
 ASSUMPTIONS = ['none on value/gradient oracles and on step proposals for descent / flag / returns-last', 'lb <= ub wherever both finite', '0 <= eta1, default (non-incremental) mode for descent',
-               'brentq returns some number (no assumption for box feasibility)']
+               'brentq returns some number (no assumption for box feasibility)',
+               'complete model: gradient and Hessian-vector oracles return vectors of the length of their argument (shape typing); nothing else']
 RULE = ('objectives as C01 (dyadic polynomials, 1..6 variables) with boxes whose components are finite, one-sided, infinite or degenerate (lb == ub), starts inside, on faces and on vertices, '
         'both line-search modes, settings forcing each exit; direct calls of project / project_onto_tr with points inside, outside the box and outside the radius; '
-        'a case is non-trivial when at least one outer iteration runs (solver) or the root find is needed (project_onto_tr); distinct = distinct input tuples')
-IMPORTS = ['From OV.gen Require Import Gen_TrustRegionSPG.', 'From OV.model Require Import M_C06_Vec M_C06_CG M_C01_TR M_C05_SPG.']
+        'a case is non-trivial when at least one outer iteration runs (solver) or the root find is needed (project_onto_tr); distinct = distinct input tuples; '
+        'complete-model stream: the same solver cases, every event (Cauchy search projection count and alpha, every SPG iterate with its root-find count, exit kind and iteration count, trial point, callbacks) compared')
+IMPORTS = ['From OV.gen Require Import Gen_TrustRegionSPG.', 'From OV.model Require Import M_C06_Vec M_C06_CG M_C01_TR M_C05_SPG M_C05_Full.']
 PREAMBLE = P1.PREAMBLE.split('Definition run_poly')[0] + '''
 Definition run_bc (A : list (list float)) (b c d : list float) (bs : list (@bound float)) (props : list (list float * float * bool * nat))
     (x0 : list float) (S : settings float) : list Z :=
   enc_run (@bc_minimize float NumF (pvalue A b c d) (pgrad A b c d) bs
             (fun k _ => nth k props (map (fun _ => F 0 0) x0, F 0 0, false, O)) S x0).
+Definition enc_fev (e : fevent float) : list Z :=
+  match e with
+  | FCauchy fwd n1 n2 a => [10; if fwd then 1 else 0; Z.of_nat n1; Z.of_nat n2] ++ fenc a
+  | FCauchyError ph => [11; Z.of_nat ph]
+  | FSpg x k chi2 => 12 :: Z.of_nat k :: fencs x ++ fenc chi2
+  | FSpgExit kd it => [13; Z.of_nat kd; Z.of_nat it]
+  | FTrial y => 14 :: fencs y
+  | FOut e => enc_ev e
+  | FModelLimit => [15]
+  end.
+Definition run_full (A E : list (list float)) (b c d : list float) (bs : list (@bound float)) (brents : list float)
+    (x0 : list float) (S : settings float) (G : spg_settings float) : list Z :=
+  let '(res, tr) := @full_minimize float NumF (pvalue A b c d) (pgrad A b c d) (phessvec A E c d) (fun k => nth k brents (F 0 0)) bs S G x0 in
+  (match res with None => [2] | Some (x, f) => benc f ++ fencs x end) ++ flat_map enc_fev tr.
 '''
 INF = math.inf
 
@@ -132,13 +158,47 @@ def run_impl(case, mods, noise=None):
     props = []
     orig = TR.solve_spg_subproblem
 
+    tlog = []                                  # every value scipy's brentq returned, in call order
+    KIND = {TR.cauchyString: 0, TR.boundaryString: 1, TR.interiorString + '_': 2}
+
     def logged(*a, **k):
         r = orig(*a, **k)
         props.append(([float(t) for t in r[0]], float(r[1]), r[3] == TR.boundaryString, int(r[4])))
+        obj.log.append(('exit', KIND.get(r[3], 9), int(r[4])))
+        obj.log.append(('trial', [float(t) for t in (a[0] + r[0])]))
         return r
 
     def cb(x, o):
         obj.log.append(('cb', [float(t) for t in x]))
+    # complete-model tie: Cauchy search (number of projections it performed, returned alpha), every point handed to
+    # subproblem_optimality (the Cauchy point and every SPG iterate) with the number of root finds so far
+    nproj = [0]
+    orig_p, orig_cp, orig_so, orig_b = TR.project, TR.find_generalized_cauchy_point, TR.subproblem_optimality, TR.optimize.brentq
+
+    def logged_p(x, b):
+        nproj[0] += 1
+        return orig_p(x, b)
+
+    def logged_cp(*a, **k):
+        n0 = nproj[0]
+        try:
+            r = orig_cp(*a, **k)
+        except RuntimeError:
+            obj.log.append(('cperr',))
+            raise
+        obj.log.append(('cauchy', nproj[0] - n0, float(r[0])))
+        return r
+
+    def logged_so(xn, *a, **k):
+        r = orig_so(xn, *a, **k)
+        obj.log.append(('spg', [float(t) for t in xn], len(tlog), float(r)))
+        return r
+
+    def logged_b(f, a, b, **k):
+        r = orig_b(f, a, b, **k)
+        tlog.append(float(r[0] if isinstance(r, tuple) else r))
+        return r
+    TR.project, TR.find_generalized_cauchy_point, TR.subproblem_optimality, TR.optimize.brentq = logged_p, logged_cp, logged_so, logged_b
     alphas = []
     orig_k = TR.kouri_exact_line_search
 
@@ -175,7 +235,8 @@ def run_impl(case, mods, noise=None):
         TR.solve_spg_subproblem = orig
         TR.kouri_exact_line_search = orig_k
         TR.is_converged = orig_c
-    return dict(x=x, flag=flag, log=obj.log, props=props, obj=obj, settings=st, err=err, bounds=bounds, conv_margin=margin[0],
+        TR.project, TR.find_generalized_cauchy_point, TR.subproblem_optimality, TR.optimize.brentq = orig_p, orig_cp, orig_so, orig_b
+    return dict(x=x, flag=flag, log=[e for e in obj.log if e[0] in ('cb', 'pc')], full=list(obj.log), brents=tlog, props=props, obj=obj, settings=st, err=err, bounds=bounds, conv_margin=margin[0],
                 min_alpha=min([a for a in alphas if a == a] + [0.0]))
 
 
@@ -240,6 +301,95 @@ def model_expr(case, out):
             st['max_cumulative_spg_iters'], C.cf(0.0), C.cf(0.0), C.cf(st['tr_size']), C.cf(st['min_tr_size']), 'true' if st['use_incremental_objective'] else 'false'))
     props = C.clist(['(%s, %s, %s, %d%%nat)' % (cvec(sv), C.cf(mo), 'true' if onb else 'false', it) for sv, mo, onb, it in out['props']])
     return 'run_bc %s %s %s %s %s %s %s %s' % (cmat(case['A']), cvec(case['b']), cvec(case['c']), cvec(case['d']), cbounds(case['bounds']), props, cvec(case['x0']), s)
+
+
+SPG_DEFAULTS = dict(spg_inexact_solve_ratio=1e-4, spg_nonmonotone_iter_limit_to_enforce_decrease=10, cauchy_point_sufficient_decrease_factor=1e-4,
+                    cauchy_point_decrease_tol=1e-8, cauchy_point_max_line_search_iters=25, min_spectral_step_length=1e-12, max_spectral_step_length=1e12)
+
+
+def model_expr_full(case, out):
+    """the COMPLETE model (model/M_C05_Full.v) on the case: only brentq's answers are taken from the implementation's run"""
+    st = dict(SPG_DEFAULTS, **case['st'])
+    spg_tol = st.get('spg_tol') if st.get('spg_tol') is not None else 0.2 * st['tol']
+    s = ('{| s_t1 := %s; s_t2 := %s; s_eta1 := %s; s_eta2 := %s; s_eta3 := %s; s_max_trust_iters := %d; s_tol := %s; s_max_cg_iters := %d; '
+         's_max_cumulative_cg_iters := %d; s_cg_tol := %s; s_cg_ratio := %s; s_tr_size := %s; s_min_tr_size := %s; s_use_pc_ip := false; s_use_incremental := %s |}'
+         % (C.cf(st['t1']), C.cf(st['t2']), C.cf(st['eta1']), C.cf(st['eta2']), C.cf(st['eta3']), st['max_trust_iters'], C.cf(st['tol']), st['max_spg_iters'],
+            st['max_cumulative_spg_iters'], C.cf(spg_tol), C.cf(st['spg_inexact_solve_ratio']), C.cf(st['tr_size']), C.cf(st['min_tr_size']),
+            'true' if st['use_incremental_objective'] else 'false'))
+    g = ('{| g_nonmonotone := %s; g_hist := %d; g_mu0 := %s; g_qtol := %s; g_max_ls := %d; g_lam_min := %s; g_lam_max := %s |}'
+         % ('true' if st['spg_use_nonmonotone'] else 'false', st['spg_nonmonotone_iter_limit_to_enforce_decrease'], C.cf(st['cauchy_point_sufficient_decrease_factor']),
+            C.cf(st['cauchy_point_decrease_tol']), st['cauchy_point_max_line_search_iters'], C.cf(st['min_spectral_step_length']), C.cf(st['max_spectral_step_length'])))
+    return 'run_full %s %s %s %s %s %s %s %s %s %s' % (cmat(case['A']), cmat(case['E']), cvec(case['b']), cvec(case['c']), cvec(case['d']), cbounds(case['bounds']),
+                                                       cvec(out['brents']), cvec(case['x0']), s, g)
+
+
+def parse_full(zs, n):
+    """-> (result, events): result None (RuntimeError / outside the model) or (flag, x); events in the vocabulary of run_impl's full log"""
+    try:
+        i = 0
+        if zs[0] == 2:
+            res, i = None, 1
+        else:
+            res, i = (bool(zs[0]), C.dec_floats(zs[1:1 + 2 * n])), 1 + 2 * n
+        ev = []
+        while i < len(zs):
+            code = zs[i]
+            i += 1
+            if code == 10:
+                fwd, n1, n2 = zs[i], zs[i + 1], zs[i + 2]
+                ev.append(('cauchy', 1 + (1 + n1 if fwd else n1) + n2, C.dec_floats(zs[i + 3:i + 5])[0]))
+                i += 5
+            elif code == 11:
+                ev.append(('cperr',))
+                i += 1
+            elif code == 12:
+                ev.append(('spg', C.dec_floats(zs[i + 1:i + 1 + 2 * n]), zs[i], C.dec_floats(zs[i + 1 + 2 * n:i + 3 + 2 * n])[0]))
+                i += 3 + 2 * n
+            elif code == 13:
+                ev.append(('exit', zs[i], zs[i + 1]))
+                i += 2
+            elif code == 14:
+                ev.append(('trial', C.dec_floats(zs[i:i + 2 * n])))
+                i += 2 * n
+            elif code == 15:
+                ev.append(('limit',))
+            elif code == 6:
+                ev.append(('fuel',))
+            elif code in (0, 1, 2, 3, 4, 5):
+                pt = C.dec_floats(zs[i:i + 2 * n])
+                i += 2 * n + (2 if code == 1 else 0)
+                if code != 4:                      # the max-iterations exit has no callback
+                    ev.append(('pc' if code == 5 else 'cb', pt))
+            else:
+                raise ValueError('code %r' % code)
+        return res, ev
+    except (KeyError, IndexError, ValueError, TypeError) as ex:
+        return None, [('undecodable', repr(ex))]
+
+
+def disc_full(ev):
+    """the discrete part of a complete trace: event kinds, projection counts of the Cauchy search, root-find counts, exit kinds and iteration counts"""
+    return tuple((e[0],) + tuple(t for t in e[1:] if isinstance(t, int)) for e in ev)
+
+
+def compare_full(res, mev, o):
+    """None if the complete model's run equals the implementation's (discrete trace exactly, numbers within tolerance), else a description"""
+    iev = o['full']
+    if disc_full(mev) != disc_full(iev):
+        a, b = disc_full(mev), disc_full(iev)
+        k = next((i for i, (u, v) in enumerate(zip(a, b)) if u != v), min(len(a), len(b)))
+        return 'discrete traces differ at event %d of %d/%d: model %s, implementation %s' % (k, len(a), len(b), a[k:k + 3], b[k:k + 3])
+    for k, (u, v) in enumerate(zip(mev, iev)):
+        for p, q in zip(u[1:], v[1:]):
+            if isinstance(p, list) and not P1.close_vec(p, q):
+                return 'event %d (%s): model point %r, implementation %r' % (k, u[0], p, q)
+            if isinstance(p, float) and not P1.close_vec([p], [q], 1e-6, 1e-12):
+                return 'event %d (%s): model value %r, implementation %r' % (k, u[0], p, q)
+    if (res is None) != (o['err'] is not None):
+        return 'model result %r but implementation %s' % (res, 'raised ' + o['err'] if o['err'] else 'returned')
+    if res is not None and (res[0] != o['flag'] or not P1.close_vec(res[1], o['x'])):
+        return 'model returns %r, implementation %r' % (res, (o['flag'], o['x']))
+    return None
 
 
 def convex_box_cases(ctx, count):
@@ -364,7 +514,7 @@ def gen_projection_cases(ctx, count):
 
 
 def clip_tie(ctx):
-    """fail-closed syntactic tie of the hand kernel clip01 / spg_alpha (model/M_C05_SPG.v) to the source: inside solve_spg_subproblem
+    """fail-closed syntactic tie of spg_alpha / spg_update (model/M_C05_SPG.v; the clip itself is the regenerated kernel spg_step_clip) to the source: inside solve_spg_subproblem
     the only assignments to `alpha` must be `alpha = line_search(ds, sBs, q, qMax, settings)` followed by
     `alpha = min(1.0, max(0.0, alpha)) if sBs > 0 else 1.0`, and the update must be `z += alpha*s` (AST equality)."""
     import ast
@@ -381,8 +531,65 @@ def clip_tie(ctx):
     except Exception as ex:
         ok, msg = False, repr(ex)
     if not ok:
-        ctx.fail('translator', 'the step-length rule of solve_spg_subproblem no longer matches the hand kernel spg_alpha/clip01 of model/M_C05_SPG.v (%s)' % msg)
+        ctx.fail('translator', 'the step-length rule of solve_spg_subproblem no longer has the shape assumed by spg_alpha / spg_update of model/M_C05_SPG.v (%s)' % msg)
     ctx.cov['clip_tie'] = ok
+
+
+def kernel_stream(ctx, mods):
+    """exact tie of the regenerated kernels spg_step_clip / project_n1..3 (PrimFloat) to the source: the clip STATEMENT is taken out of the AST of
+    solve_spg_subproblem and executed as python; project is called on jnp arrays (finite, infinite and degenerate bounds)"""
+    import ast
+    import os
+    jnp, TR = mods
+    r = ctx.rng('kernels')
+    tree = ast.parse(open(os.path.join(C.REPO, 'optimism', 'TrustRegionSPG.py')).read())
+    fn = [n for n in tree.body if isinstance(n, ast.FunctionDef) and n.name == 'solve_spg_subproblem'][0]
+    asg = sorted((n for n in ast.walk(fn) if isinstance(n, ast.Assign) and len(n.targets) == 1 and isinstance(n.targets[0], ast.Name) and n.targets[0].id == 'alpha'),
+                 key=lambda n: (n.lineno, n.col_offset))
+    if len(asg) != 2:
+        ctx.fail('translator', 'solve_spg_subproblem: expected 2 assignments to alpha, found %d' % len(asg))
+        return
+    code = compile(ast.Module(body=[asg[1]], type_ignores=[]), 'clip', 'exec')
+    special = [math.nan, math.inf, -math.inf, 0.0, -0.0, 1.0, 5e-324, 0.5, 1.0 + 2.2e-16, 1.0 - 1.1e-16, -1.0, 2.0, -5e-324]
+    pairs = [(a, s) for a in special for s in (math.nan, 0.0, -0.0, 1.0, -1.0, math.inf, 5e-324)]
+    pairs += [(r.gauss(0, 1) * 10 ** r.uniform(-3, 1), r.gauss(0.3, 1)) for _ in range(ctx.n(60, 400))]
+    ex, want = [], []
+    for a, sb in pairs:
+        ns = dict(alpha=a, sBs=sb)
+        exec(code, {}, ns)
+        want.append([float(ns['alpha'])])
+        ex.append('fenc (@spg_step_clip float NumF %s %s)' % (C.cf(a), C.cf(sb)))
+    nclip = len(pairs)
+    for _ in range(ctx.n(90, 600)):
+        n = r.randrange(1, 4)
+        bs, x = [], []
+        for _ in range(n):
+            k = r.randrange(5)
+            lo = -INF if k == 0 else P1.dy(r, -3, 1)
+            hi = INF if k == 1 else lo if (k == 2 and lo > -INF) else (P1.dy(r, -1, 3) if lo == -INF else lo + P1.dy(r, 0, 3))
+            bs.append((lo, hi))
+            x.append(r.choice([lo, hi, r.gauss(0, 3), r.gauss(0, 3), INF, -INF]) if r.random() < 0.5 else r.gauss(0, 2))
+        x = [t if t == t else 0.0 for t in x]
+        p = TR.project(jnp.array(x), jnp.array([[lo, hi] for lo, hi in bs]))
+        want.append([float(t) for t in p])
+        args = ' '.join(C.cf(t) for t in x) + ' ' + ' '.join('%s %s' % (C.cf(lo), C.cf(hi)) for lo, hi in bs)
+        if n == 1:
+            ex.append('fenc (@project_n1 float NumF %s)' % args)
+        elif n == 2:
+            ex.append("let '(a, b) := @project_n2 float NumF %s in fenc a ++ fenc b" % args)
+        else:
+            ex.append("let '(a, b, c) := @project_n3 float NumF %s in fenc a ++ fenc b ++ fenc c" % args)
+    res = C.coq_eval(IMPORTS, ['(%s)' % e for e in ex], 'C05k', shard=400)
+    bad = 0
+    for k, (zs, w) in enumerate(zip(res, want)):
+        got = C.dec_floats(zs)
+        same = len(got) == len(w) and all((a != a and b != b) or (a == b and math.copysign(1, a) == math.copysign(1, b)) for a, b in zip(got, w))
+        if not same:
+            bad += 1
+            if bad <= 3:
+                ctx.fail('correspondence', '%s: generated kernel gives %r, the source %r (%s)' % ('spg_step_clip' if k < nclip else 'project', got, w, ex[k][:200]))
+    ctx.count('generated_kernel_comparisons', len(ex))
+    ctx.count('generated_kernel_mismatches', bad)
 
 
 def correspondence(ctx, model_ok):
@@ -466,6 +673,7 @@ def correspondence(ctx, model_ok):
     ctx.sample(dict(kind='project_onto_tr', x=pcases[0]['x'], xk=pcases[0]['xk'], tr=pcases[0]['tr'], result=(pouts[0] or {}).get('q'), root_find=(pouts[0] or {}).get('root')))
     if not model_ok:
         return
+    kernel_stream(ctx, mods)
     # ---- L1: projections
     ex = []
     pc2 = [(c, o) for c, o in zip(pcases, pouts) if o is not None]
@@ -525,9 +733,74 @@ def correspondence(ctx, model_ok):
                          case=dict({k: v for k, v in c.items()}, impl=dict(x=o['x'], flag=o['flag'], log=o['log'])))
         else:
             unstable += 1
-    ctx.count('model_vs_impl_comparisons', len(idx) + len(pcases))
-    ctx.count('model_vs_impl_mismatches', mism)
-    ctx.count('unstable_near_tie_cases', unstable)
+    # ---- L1: the COMPLETE model (Cauchy search + SPG + outer loop in the model; only brentq's answers are fed): every event of the run
+    fidx = list(range(len(cases)))
+    res = C.coq_eval(IMPORTS, [model_expr_full(cases[i], outs[i]) for i in fidx], 'C05f', shard=30, preamble=PREAMBLE, timeout=900)
+    fmism = funstable = fexact = 0
+    evhist = {}
+    pending = []
+    for i, zs in zip(fidx, res):
+        c, o = cases[i], outs[i]
+        if o['err'] in ('timeout',) or (o['err'] or '').startswith('exception'):
+            continue
+        mres, mev = parse_full(zs, c['n'])
+        for e in mev:
+            evhist[e[0]] = evhist.get(e[0], 0) + 1
+            if e[0] == 'cauchy':
+                evhist['cauchy:projections>2'] = evhist.get('cauchy:projections>2', 0) + (e[1] > 2)
+            if e[0] == 'exit':
+                evhist['exit:kind%d' % e[1]] = evhist.get('exit:kind%d' % e[1], 0) + 1
+        what = compare_full(mres, mev, o)
+        if what is None:
+            fexact += 1
+            continue
+        pending.append((i, what, mres, mev))
+    # near-tie rule for the complete traces.  A disagreement is only a correspondence failure if the run is numerically DETERMINED:
+    # (a) the implementation's own complete trace is stable under <= 2 ulp noise on the oracle arguments, and
+    # (b) the model's own trace is stable when the root finder's answers are moved inside brentq's own tolerance (xtol = 2e-12: any such
+    #     value is a legitimate answer of the oracle) and the start point / linear term by <= 2 ulp.  SPG on non-convex problems amplifies
+    #     rounding differences (dot-product summation order) by ~10x per iteration; such runs are counted as unstable, not as agreeing.
+    NPERT = 5
+    pex = []
+    for i, what, mres, mev in pending:
+        c, o = cases[i], outs[i]
+        rr = ctx.rng('perturb%d' % i)
+        for k in range(NPERT):
+            o2 = dict(o, brents=[t * (1.0 + rr.uniform(-1, 1) * 1e-12) + rr.uniform(-1, 1) * 1e-13 for t in o['brents']])
+            c2 = dict(c, b=[t * (1.0 + rr.uniform(-1, 1) * 4.4e-16) for t in c['b']])
+            pex.append(model_expr_full(c2, o2))
+    pres = C.coq_eval(IMPORTS, pex, 'C05fp', shard=10, preamble=PREAMBLE, timeout=900) if pex else []
+    for j, (i, what, mres, mev) in enumerate(pending):
+        c, o = cases[i], outs[i]
+        stable = not o['conv_margin'] < 1e-6
+        for zs in pres[j * NPERT:(j + 1) * NPERT] if stable else []:
+            pr, pe = parse_full(zs, c['n'])
+            if compare_full(pr, pe, dict(full=mev, err=None if mres is not None else 'none', flag=mres[0] if mres else None, x=mres[1] if mres else None)) is not None:
+                stable = False
+                break
+        for k in range(8 if stable else 0):
+            o2 = run_impl(c, mods, onp.random.RandomState(ctx.seed % 100000 + 17 * k))
+            if disc_full(o2['full']) != disc_full(o['full']) or (o2['x'] is not None and o['x'] is not None and not P1.close_vec(o2['x'], o['x'], 1e-7, 1e-9)):
+                stable = False
+                break
+        if stable:
+            fmism += 1
+            if fmism <= 12:
+                ctx.fail('correspondence', 'complete model (find_generalized_cauchy_point + solve_spg_subproblem + outer loop) vs bound_constrained_trust_region_minimize: ' + what,
+                         case=dict({k: v for k, v in c.items()}, impl=dict(x=o['x'], flag=o['flag'], log=o['log'], err=o['err'])))
+        else:
+            funstable += 1
+    ctx.cov['complete_model_runs_agreeing'] = fexact
+    ctx.cov['complete_model_runs_unstable_near_tie'] = funstable
+    ctx.cov['complete_model_event_histogram'] = evhist
+    ctx.count('complete_model_comparisons', len(fidx))
+    ctx.count('complete_model_mismatches', fmism)
+    # the complete-model tie must not degenerate into "everything is a near tie"
+    if fexact < 0.6 * len(fidx):
+        ctx.fail('correspondence', 'complete model: only %d of %d runs agree event by event (%d unstable near ties, %d mismatches)' % (fexact, len(fidx), funstable, fmism))
+    ctx.count('model_vs_impl_comparisons', len(idx) + len(pcases) + len(fidx))
+    ctx.count('model_vs_impl_mismatches', mism + fmism)
+    ctx.count('unstable_near_tie_cases', unstable + funstable)
 
 
 def search(ctx, reasons):
